@@ -7,6 +7,11 @@ COMMON_ASSUMPTIONS = [
 ]
 
 PROPS = {
+    "C14": {
+        "kinds": [("C14", 2000, 30000)],
+        "rule": "one constructor / transformation call of Polytope per case (intersection, intersection_n incl. empty list, translate, apply_pre, apply_post with exact unimodular inverse pairs, rotate with signed permutations, hypercube, hyperrectangle and axis_bounds with infinite bounds, unbounded, empty, simplex, cross_polytope, from_normal), dims 1-4; 10 lattice points per case, half on a facet; membership, contains and distance signs judged exactly; non-trivial = the call returns; distinct by case text",
+        "assumptions": COMMON_ASSUMPTIONS + ["simplex: sqrt(n+1) is taken from the implementation and checked to square to n+1 within 1e-9; convex-hull statement not checked (partial)"],
+    },
     "C10": {
         "kinds": [("C10", 1500, 20000)],
         "rule": "one constraint system per case from nine classes (boxes with missing sides, random rows, equality pairs, empty by a margin, parallel/scaled rows, zero rows, simplex-like, half-spaces and strips) in dimension 1-4 with a random objective; status, is_feasible, solve_linprog and the Chebyshev-centre program are judged against an exact certified simplex; non-trivial = at least 2 rows; distinct by case text",
